@@ -38,7 +38,7 @@ PROFILES = {
     'script': dict(weights=_w(0.5, StorySend=3.0, StoryInsert=1.2, StoryReplace=1.2, ItemInsert=1, ItemDelete=1, EAItemMove=1, **_LOW),
                    max_stories=6, max_steps=20, max_paras=7),
     'collection': dict(weights=_w(1.0, RODelete=0.5, ROReplace=0.2, ReadyToAir=0.3, MetadataReplace=0.5),
-                       max_stories=5, max_steps=16, batch=True, end_rate=0.7),
+                       max_stories=5, max_steps=16, batch=True, end_rate=0.7, end_replace=0.12),
     'classify': dict(weights=_w(1.0, **_LOW), max_stories=3, max_steps=14, raw_rate=0.45, corrupt_rate=0.25,
                      classify_all=1.0, max_items=2, max_paras=1),
     'cli': dict(weights=_w(1.0, RODelete=0.5, ROReplace=0.2), max_stories=4, max_steps=10, cli=True, end_rate=0.7,
@@ -268,6 +268,16 @@ def generate(seed, profile_name, faulty=None):
         pos = len(ops) if R.random() < 0.6 else R.randint(0, len(ops))
         ops.insert(pos, {'type': 'RODelete', 'ro_id': g.ro_id, 'shapes': {}})
         ended = True
+    if P.get('end_replace') and R.random() < P['end_replace']:
+        # a roReplace as the last effective message (only a roDelete may follow)
+        saved = g.weights
+        g.weights = {'ROReplace': 1.0}
+        rep = g.gen_op()
+        g.weights = saved
+        pos = len(ops)
+        if ops and ops[-1]['type'] == 'RODelete':
+            pos -= 1
+        ops.insert(pos, rep)
     if ended and P.get('force_after_end'):
         # forced coverage: one of every message type after the roDelete
         idx = max(i for i, o in enumerate(ops) if o['type'] == 'RODelete')
